@@ -162,7 +162,8 @@ def run_check(prop, tier):
     for k in known.get('known', []):
         if prop in k['property']:
             try:
-                still = findings.replay(k['id'])
+                with common.time_limit(120):
+                    still = findings.replay(k['id'])
             except Exception:
                 still = None
                 rep.notes.append('known finding %s replay crashed: %s' % (k['id'], traceback.format_exc()[-500:]))
@@ -171,7 +172,12 @@ def run_check(prop, tier):
     for fx in known.get('fixed', []):
         if prop in fx['property']:
             try:
-                back = findings.replay(fx['id'])
+                with common.time_limit(120):
+                    back = findings.replay(fx['id'])
+            except common.ImplTimeout:
+                # the replay of a repaired defect does not return any more: the defect (or something as bad) is back
+                back = True
+                rep.notes.append('fixed finding %s: the replay does not terminate' % fx['id'])
             except Exception:
                 back = None
                 rep.notes.append('fixed finding %s replay crashed: %s' % (fx['id'], traceback.format_exc()[-500:]))
@@ -189,14 +195,23 @@ def main():
     ap.add_argument('--tier', default=os.environ.get('VERIF_TIER', 'quick'), choices=['quick', 'thorough'])
     ap.add_argument('--replay')
     a = ap.parse_args()
-    # global watchdog: a check that does not finish is a harness failure (exit 2), never a verdict
-    import signal
+    # global watchdog: a check that does not finish is a harness failure (exit 2), never a verdict.  A timer thread, not SIGALRM:
+    # the per-call time limits around the code under test (common.time_limit, sec_graphs.safe_pformat) use the alarm timer.
+    import threading
 
-    def _too_long(signum, frame):
+    def _too_long():
         print('harness error: time limit exceeded', file=sys.stderr)
+        sys.stderr.flush()
+        try:
+            import multiprocessing
+            for c in multiprocessing.active_children():
+                c.kill()
+        except Exception:
+            pass
         os._exit(2)
-    signal.signal(signal.SIGALRM, _too_long)
-    signal.alarm(int(os.environ.get('VERIF_TIME_LIMIT', '1500' if a.tier == 'quick' else '14400')))
+    _wd = threading.Timer(int(os.environ.get('VERIF_TIME_LIMIT', '1500' if a.tier == 'quick' else '14400')), _too_long)
+    _wd.daemon = True
+    _wd.start()
     try:
         if a.replay:
             import findings
